@@ -36,12 +36,12 @@ def run(ctx):
     # the bounded-exhaustive family is 360 plans; the quick tier runs all of it
     res = ec.run_engine_check(
         ctx,
-        profile=[("tol", 360, 360 * 6), ("mixed", 90, 1500)],
+        profile=[("tol", 360, 360 * 15), ("mixed", 90, 3000)],
         n_quick=0, n_thorough=0,
         extra_header="From Coercion.C03 Require Import MonC03.",
         monitors=["mon_tol", ("mon_tol_diag", "list")],
         release_obligation=False,
-        multi_quick=24, multi_thorough=360,
+        multi_quick=24, multi_thorough=600,
         proj="c03",
         pre_checks=[mech.check_mechanisms],
         rule_extra="mon_tol_diag codes: %s." % "; ".join("%d = %s" % kv for kv in sorted(CODES.items())),
